@@ -4,6 +4,7 @@ import itertools
 from .. import drive, forms, opsem, ref, scopes
 from ..forms import BOT, TOP, A, N, O, V
 from ..runner import Check, Result
+from .opcheck import alt_keys
 
 a, b = V("a"), V("b")
 FACTS = [a, N(a), b, A(a, b), O(a, b), BOT, TOP]
@@ -166,8 +167,8 @@ class C06(Check):
                         forms_ = ("str", "node") if len(fl) == 1 else (("str",) if j % 2 else ("node",))
                         for how in forms_:
                             cases.append((True, fl, how))
-                    for uses_facts, fl, how in cases:
-                        bb = drive.mkbb(sig, conds)
+                    for ci, (uses_facts, fl, how) in enumerate(cases):
+                        bb = drive.mkbb(sig, conds, alt_keys(ci, len(conds)))
                         kw = {}
                         if uses_facts:
                             kw["facts"] = [forms.txt(f) if how == "str" else forms.to_pysmt(f) for f in fl]
@@ -184,7 +185,7 @@ class C06(Check):
                         if got != exp:
                             res.violation(self.id, "diagnostics", {"sig": sig, "conds": [forms.ctxt(c) for c in conds], "conds_f": conds,
                                           "extended": extended, "uses_facts": uses_facts, "facts": [forms.txt(f) for f in (fl or [])],
-                                          "facts_f": fl, "how": how, "config": "diagnostics"}, exp, got)
+                                          "facts_f": fl, "how": how, "config": "diagnostics", "keys": alt_keys(ci, len(conds))}, exp, got)
                         elif uses_facts:
                             res.nontrivial.add(hash((tuple(conds), extended, tuple(fl), how)))
                         res.counters["diagnostics_cases"] += 1
@@ -223,14 +224,17 @@ class C06(Check):
         else:
             q = drive.mkcond((b, a))
             for sig, conds, cls in task[1]:
-                for weakly in (False, True):
+                shared = {}     # ONE base object per configuration goes through both modes (extended first for even tasks)
+                for weakly in ((True, False) if len(conds) % 2 == 0 else (False, True)):
                     must_refuse = cls in ("inconsistent", "empty") or (not weakly and cls != "strong")
-                    if not must_refuse:
-                        continue
                     for cfg, (system, pm) in drive.CONFIGS.items():
                         if cfg == "c" and weakly:
                             continue
-                        bb = drive.mkbb(sig, conds)
+                        bb = shared.setdefault(cfg, drive.mkbb(sig, conds))
+                        if not must_refuse:
+                            # an accepted call in this mode must not make the later call in the other mode accept / refuse wrongly
+                            drive.construct_fails(bb, system, pm, weakly, q)
+                            continue
                         table, exc = drive.construct_fails(bb, system, pm, weakly, q)
                         res.evals += 1
                         dig.append(repr((table, exc and exc[1])))
@@ -268,7 +272,7 @@ class C06(Check):
                 kw["facts"] = [forms.txt(f) if c["how"] == "str" else forms.to_pysmt(f) for f in fl]
             exp = ref_diag(sig, conds, fl, c["extended"], c["uses_facts"])
             try:
-                d = consistency_diagnostics(drive.mkbb(sig, conds), extended=c["extended"], uses_facts=c["uses_facts"],
+                d = consistency_diagnostics(drive.mkbb(sig, conds, c.get("keys")), extended=c["extended"], uses_facts=c["uses_facts"],
                                             on_inconsistent="silent", **kw)
                 got = {k: d.get(k) for k in exp if k in d}
             except Exception as e:  # noqa: BLE001
